@@ -143,8 +143,10 @@ func refCertRules(ok bool, s vScalars, descs []vCertDesc) {
 	classifiable, sameISD, covered := true, true, true
 	for _, d := range descs {
 		classifiable = classifiable && vIsTRCClass(d.class)
-		sameISD = sameISD && (d.isd == 0 || uint16(d.isd) == s.isd)
-		covered = covered && d.nb <= s.nb && s.na <= d.na
+		if d.isd != 0 {
+			sameISD = vAnd(sameISD, uint16(d.isd) == s.isd)
+		}
+		covered = vAnd(covered, vAnd(d.nb <= s.nb, s.na <= d.na))
 	}
 	uniqIssuerSerial, uniqSubject := true, true
 	for i := range descs {
